@@ -288,6 +288,23 @@ def gen_leaf_reads(loader, check, replay_on=True):
             check.ob("variable-backed.il_read#raw.counter-advances", pi, pc, isinstance(after, SInt) and after.t == R0 + 1)
         run_inst(check, loader, "variable-backed.il_read", inst, setup, lambda it, o: it.call(it.getattr_(o, "il_read"), [], {}), post)
 
+    # parameters of external type (pkt, hi, bundle, operand handles) are plain C values, not owned IL nodes: always the bare name
+    for ext_t in ("HexPkt", "HexInsnPktBundle", "const HexOp *"):
+        inst = f"Parameter:EXTERNAL({ext_t}) any-read-history"
+
+        def setup_e(it, ext_t=ext_t):
+            G = loader.load("rzilcompiler.Transformer.ValueType").globals["VTGroup"]
+            vt = conc_vt(loader, (False, 64), G.EXTERNAL)
+            vt.fields["external_type"] = ext_t
+            o = it.call(irkit.C(loader, "Parameter"), ["pkt", vt], {})
+            sym_reads(it, o)
+            return o
+
+        def post_e(p, pi):
+            check.ob("Parameter.il_read#raw.external-parameter-is-always-the-bare-name (never DUP of a C value)", pi, p.ctx.pc,
+                     p.outcome == "return" and p.value == "pkt", detail=f"{p.outcome} {p.value!r}")
+        run_inst(check, loader, "Parameter.il_read", inst, setup_e, lambda it, o: it.call(it.getattr_(o, "il_read"), [], {}), post_e)
+
     # locals are read through VARL (a fresh IL node each time): never DUP
     for kind in ("Variable", "HybridTmp", "ReturnValue"):
         def setup(it, kind=kind):
@@ -528,6 +545,31 @@ def _gen_misc_nodes(loader, check, replay_on=True):
         def post(p, pi, want=want):
             check.ob("Call.il_exec#binding.plugin-call-text", pi, p.ctx.pc, p.outcome == "return" and p.value == want, detail=repr(p.value))
         run_inst(check, loader, "Call.il_exec", fname, setup, lambda it, o: it.call(it.getattr_(o, "il_exec"), [], {}), post)
+
+    # arguments of a plugin call are READ (ownership): an abstract value operand once, a borrowed pure parameter through its il_read
+    def setup_c(it):
+        vt = conc_vt(loader, (False, 32), G.VOID)
+        par = it.call(irkit.C(loader, "Parameter"), ["p", conc_vt(loader, (True, 32))], {})
+        R0 = z3.Int("reads0")
+        it.ctx.assume(R0 >= 0)
+        par.fields["reads"] = SInt(R0)
+        a = irkit.mk_operand(it, "Variable", (True, 32), "a")
+        return {"n": it.call(irkit.C(loader, "Call"), ["c_call", vt, ["WRITE_REG", "bundle", par, a]], {}), "par": par, "a": a, "R0": R0}
+
+    def post_c(p, pi):
+        if p.outcome != "return":
+            check.ob("Call.il_exec#total", pi, p.ctx.pc, False, detail=repr(p.value))
+            return
+        st = p.state
+        t = emit.as_tpl(p.value)
+        txt = t.render(lambda a: f"@{a.tag}")
+        r1 = st["par"].fields["reads"]
+        check.ob("Call.il_exec#raw.a-borrowed-pure-parameter-is-passed-through-il_read (counter advances)", pi, p.ctx.pc,
+                 isinstance(r1, SInt) and r1.t == st["R0"] + 1, detail=f"reads {r1!r}")
+        check.ob("Call.il_exec#raw.first-read-raw-later-reads-DUP", pi, p.ctx.pc,
+                 z3.And(z3.Implies(st["R0"] == 0, z3.BoolVal(txt == "WRITE_REG(bundle, p, @a)")), z3.Implies(st["R0"] >= 1, z3.BoolVal(txt == "WRITE_REG(bundle, DUP(p), @a)"))), detail=txt)
+        check.ob("Call.il_exec#raw.value-argument-read-exactly-once", pi, p.ctx.pc, st["a"].ghost.get("nreads", 0) == 1)
+    run_inst(check, loader, "Call.il_exec", "WRITE_REG(bundle, <pure parameter>, <value>)", setup_c, lambda it, st: it.call(it.getattr_(st["n"], "il_exec"), [], {}), post_c)
 
     # ---- Hybrid.il_init_var / Effect.il_init_var: one declaration per effect variable ------------------------------
     for cls in ("PostfixIncDec", "Assignment", "NOP", "Empty"):
